@@ -38,7 +38,11 @@ func (m *zzMatcher) SubexpNameTable() map[string]int { return m.names }
 
 func zzBlank(s string) bool {
 	for _, r := range s {
-		if r != ' ' && r != '\t' && r != '\n' && r != '\r' && r != '\v' && r != '\f' && r != 0x85 && r != 0xa0 {
+		switch {
+		case r == ' ' || r == '\t' || r == '\n' || r == '\r' || r == '\v' || r == '\f' || r == 0x85 || r == 0xa0:
+		case r == 0x1680 || (r >= 0x2000 && r <= 0x200a) || r == 0x2028 || r == 0x2029 || r == 0x202f || r == 0x205f || r == 0x3000:
+			// the rest of Unicode's White_Space property (three-byte runes)
+		default:
 			return false
 		}
 	}
